@@ -61,6 +61,17 @@ TrSync ==
                  ELSE "none"
     /\ UNCHANGED lastH
 
+(* An honest proposer's block was rejected by a replica: the proposer's execution of the block (which fixed the state root in  *)
+(* the block metadata) and the replica's execution of the same block differ - a disagreement between replicas on identical     *)
+(* input (C01), and a block that cannot be decided (C10).                                                                       *)
+TrReject ==
+    /\ l <= Len(Trace) /\ Ev.ev = "reject" /\ l' = l + 1
+    /\ bad' = IF bad # "none" THEN bad
+              ELSE IF "C10" \in Props THEN "C10: an honestly built proposal was rejected"
+              ELSE IF "C01" \in Props THEN "C01: a replica rejected an honestly built proposal: its execution of the block differs from the proposer's"
+              ELSE "none"
+    /\ UNCHANGED lastH
+
 TrChain == l <= Len(Trace) /\ Ev.ev = "begin_chain" /\ l' = l + 1 /\ lastH' = 0 /\ UNCHANGED bad
 
 Known == {"agree", "panic", "reject", "prepare_failed", "begin_chain", "statesync"}
@@ -69,7 +80,7 @@ TrSkip == l <= Len(Trace) /\ Ev.ev \notin Known /\ l' = l + 1 /\ UNCHANGED <<bad
 TraceNext ==
     \/ TrAgree \/ TrChain \/ TrSkip \/ TrSync
     \/ TrBad("panic", "block execution panicked")
-    \/ TrBad("reject", "an honestly built proposal was rejected")
+    \/ TrReject
     \/ TrBad("prepare_failed", "PrepareProposal could not build a block from the submitted transactions")
 
 TraceSpec == TraceInit /\ [][TraceNext]_tvars
